@@ -94,6 +94,13 @@ func vh15Corpus() [][]vhsrvReq {
 		// same inside a multi-component walk, second component
 		{v, at, {T: "Twalk", N: []uint64{0, 1}, S: vhsrvH("d1", "f1"), FaultAns: pan, FaultCall: 5}, w(0, 1, "d1", "f1"), {T: "Tsetattr", N: []uint64{1, 1}},
 			w(0, 2, "d1"), {T: "Tunlinkat", N: []uint64{2, 0}, S: vhsrvH("f1")}, {T: "Tclunk", N: []uint64{1}}, {T: "Tclunk", N: []uint64{2}}},
+		// Renamed panics on a fid below the renamed directory (rename notification of a subtree member);
+		// then that fid is clunked and the renamed directory walked: both need its child lock
+		{v, at, w(0, 1, "d1"), w(1, 2, "f1"), {T: "Trenameat", N: []uint64{0, 0}, S: vhsrvH("d1", "d2"), FaultAns: pan, FaultCall: 2},
+			{T: "Tclunk", N: []uint64{2}}, w(0, 3, "d2"), w(3, 4, "f2"), {T: "Tclunk", N: []uint64{1}}},
+		// ... and on the renamed entry itself
+		{v, at, w(0, 1, "d1"), w(1, 2, "f1"), {T: "Trenameat", N: []uint64{0, 0}, S: vhsrvH("d1", "d2"), FaultAns: pan, FaultCall: 1},
+			{T: "Tclunk", N: []uint64{2}}, w(0, 3, "d2"), {T: "Tclunk", N: []uint64{1}}},
 		// Close panics while a replaced binding is released; the fid table stays usable
 		{v, at, w(0, 1, "f1"), {T: "Twalk", N: []uint64{0, 1}, S: vhsrvH("f2"), FaultAns: pan, FaultCall: 3}, {T: "Tgetattr", N: []uint64{1, 1}}, {T: "Tclunk", N: []uint64{1}}, {T: "Tclunk", N: []uint64{0}}},
 		// UnlinkAt / Create / Open panic; then the same directory is used again (its write lock must be free)
